@@ -46,3 +46,20 @@ Theorem C04_links_closed : forall cm tz cfg m, let r := parse_message cm tz cfg 
   (forall v k, In v (rt_vehicles r) -> ve_trip v = Some k -> exists t, In t (rt_trips r) /\ tr_key t = k).
 Proof. exact links_closed. Qed.
 Print Assumptions C04_links_closed.
+
+(* ---- reciprocity, for every message whose associations with id-bearing vehicles form a partial bijection (each trip paired with
+   one vehicle id only and vice versa - the property's quantifier), whatever the entity order and however the association is
+   expressed (trip update, vehicle position, or both): the association tables are mutually inverse, and in the result the
+   trip's vehicle reference and that vehicle's trip reference lead to each other ---- *)
+Theorem C04_tables_mutually_inverse : forall cm tz cfg l, bijective (flat_map (entity_pairs cm tz cfg) l) ->
+  let a := fold_left (entity_step cm tz cfg) l acc0 in
+  forall k i, glookup tk_eqb k (a_t2v a) = Some i <-> glookup vi_eqb i (a_v2t a) = Some k.
+Proof. exact tables_mutually_inverse. Qed.
+Print Assumptions C04_tables_mutually_inverse.
+Theorem C04_links_reciprocal : forall cm tz cfg m, let p := pre_pass cfg m in let l := combine (pr_entities p) (pr_skip p) in
+  bijective (flat_map (entity_pairs cm tz cfg) l) ->
+  let r := parse_message cm tz cfg m in
+  (forall t i, In t (rt_trips r) -> tr_vehicle t = Some (Some i) -> exists v, In v (rt_vehicles r) /\ ve_id v = Some i /\ ve_trip v = Some (tr_key t)) /\
+  (forall v i k, In v (rt_vehicles r) -> ve_id v = Some i -> ve_trip v = Some k -> exists t, In t (rt_trips r) /\ tr_key t = k /\ tr_vehicle t = Some (Some i)).
+Proof. exact links_reciprocal. Qed.
+Print Assumptions C04_links_reciprocal.
